@@ -362,6 +362,31 @@ impl<'a> Model<'a> {
                     }
                 }
             }
+            (Some(MemOp::FetchReady { k, w, hold }), Ret::Got(Some(id))) => {
+                // get_or_fetch with an origin that is ready at once: a memory hit behaves like a lookup (the handle is
+                // kept or dropped at once), a miss like an insert of the fetched value
+                let k = *k as u64;
+                if self.resident.get(&k) == Some(id) {
+                    let r = self.recs.get_mut(id).unwrap();
+                    if *hold {
+                        r.refs += 1;
+                        r.pinned = true;
+                        if let SlotEffect::Push = slot_effect {
+                            self.slots.push(Some(*id));
+                        }
+                    } else if r.refs > 0 {
+                        r.pinned = true;
+                    }
+                } else if self.recs.contains_key(id) {
+                    self.fail(
+                        Prop::Any,
+                        "fetch-returned-non-resident-entry",
+                        format!("step {idx}: get_or_fetch({k}) returned entry #{id}, which is not the resident entry of that key ({:?})", self.resident.get(&k)),
+                    );
+                } else {
+                    self.insert(idx, k, *w as usize, true, *hold, *id, &mut events, &mut piped, ctx, slot_effect);
+                }
+            }
             (Some(MemOp::Touch { k }), Ret::Bool(b)) => {
                 let k = *k as u64;
                 if *b != self.resident.contains_key(&k) {
@@ -776,6 +801,7 @@ fn op_key(op: Option<&MemOp>) -> Option<u64> {
         | Some(MemOp::Get { k })
         | Some(MemOp::Touch { k })
         | Some(MemOp::Contains { k })
+        | Some(MemOp::FetchReady { k, .. })
         | Some(MemOp::Remove { k, .. }) => Some(*k as u64),
         _ => None,
     }
